@@ -1,4 +1,5 @@
 import Wx.Pure.C17
+import Wx.Pure.Gen.EnvBuckets
 /-! C17: statements about the whole summary and the line format. -/
 namespace Wp
 open List
@@ -62,6 +63,11 @@ theorem sortDedup_spec (l : List Str) :
     (sortDedup l).Pairwise (· < ·) ∧ ∀ y, y ∈ sortDedup l ↔ y ∈ l := by
   have := foldl_insertS l [] List.Pairwise.nil
   exact ⟨this.1, fun y => by rw [sortDedup, this.2]; simp⟩
+
+/-- the documented kind → variable table (`bucket`, transcribed from the rustdoc of `summarise_events_to_env`) is the
+    `match` in the code (`Gen.bucketGen`, regenerated from crates/lib/src/paths.rs on every run) — all 41 kinds -/
+theorem bucket_is_code_all : ∀ k ∈ allKinds, bucket k = Gen.bucketGen k := by decide
+theorem bucket_is_code (k : EventKind) : bucket k = Gen.bucketGen k := bucket_is_code_all k (allKinds_complete k)
 
 theorem bucket_mem (k : EventKind) : bucket k ∈ bucketNames := by
   unfold bucket bucketNames; split <;> simp
